@@ -505,7 +505,10 @@ impl RowIdTreeMap {
         let (mut start_high, mut start_low) = match range.start_bound() {
             std::ops::Bound::Included(&start) => ((start >> 32) as u32, start as u32),
             std::ops::Bound::Excluded(&start) => {
-                let start = start.saturating_add(1);
+                // Nothing comes after u64::MAX, the range is empty
+                let Some(start) = start.checked_add(1) else {
+                    return 0;
+                };
                 ((start >> 32) as u32, start as u32)
             }
             std::ops::Bound::Unbounded => (0, 0),
@@ -514,11 +517,19 @@ impl RowIdTreeMap {
         let (end_high, end_low) = match range.end_bound() {
             std::ops::Bound::Included(&end) => ((end >> 32) as u32, end as u32),
             std::ops::Bound::Excluded(&end) => {
-                let end = end.saturating_sub(1);
+                // Nothing comes before 0, the range is empty
+                let Some(end) = end.checked_sub(1) else {
+                    return 0;
+                };
                 ((end >> 32) as u32, end as u32)
             }
             std::ops::Bound::Unbounded => (u32::MAX, u32::MAX),
         };
+
+        // An empty range inserts nothing (and must not leave an empty bitmap behind)
+        if (start_high, start_low) > (end_high, end_low) {
+            return 0;
+        }
 
         let mut count = 0;
 
@@ -540,6 +551,10 @@ impl RowIdTreeMap {
                 Some(RowIdSelection::Partial(set)) => {
                     count += set.insert_range(start..=end);
                 }
+            }
+            if start_high == u32::MAX {
+                // That was the last fragment, start_high + 1 would overflow
+                break;
             }
             start_high += 1;
             start_low = 0;
